@@ -20,7 +20,7 @@ import (
 // threading the request value each accessor returns.
 type History struct {
 	Req Req      `json:"req"`
-	Ops []string `json:"ops"` // RouteInfo ContentType ResponseFormat ResponseFormatOther Authorize BindAndValidate ResetAuth
+	Ops []string `json:"ops"` // RouteInfo ContentType ResponseFormat ResponseFormatOther Authorize BindAndValidate ResetAuth SwapCT
 }
 
 type countingBody struct {
@@ -75,6 +75,7 @@ func CheckHistory(h History) *kit.Violation {
 		boundVal    interface{}
 		boundErr    string
 		trail       []string
+		swapped     bool
 	)
 	fail := func(format string, args ...interface{}) *kit.Violation {
 		return kit.Failf("%s\n request: %+v\n history so far: %v", fmt.Sprintf(format, args...), h.Req, trail)
@@ -205,6 +206,18 @@ func CheckHistory(h History) *kit.Violation {
 			}
 			cur, prinCached, prinVal = nr, false, nil
 
+		case "SwapCT":
+			// the caller overwrites the Content-Type header of the request value it holds (as the repository's own
+			// tests overwrite credentials after Authorize): a parsed content type that was stored must keep deciding
+			other := "application/x-alt"
+			if strings.HasPrefix(cur.Header.Get("Content-Type"), "application/x-alt") {
+				other = "application/json"
+			}
+			if cur.Body != nil && cur.Header.Get("Content-Type") != "" {
+				cur.Header.Set("Content-Type", other)
+				swapped = true
+			}
+
 		case "BindAndValidate":
 			if v := ensureRoute(); v != nil {
 				return v
@@ -240,6 +253,21 @@ func CheckHistory(h History) *kit.Violation {
 			} else {
 				if nr == nil {
 					return fail("BindAndValidate returned no request")
+				}
+				if ctCached && swapped && err == nil {
+					// the consumer that decoded the body is the one of the stored content type, not of the overwritten header
+					want := map[string]string{"application/json": "json", "application/x-alt": "alt"}[ctMT]
+					if m, ok := bound.(map[string]interface{}); ok && want != "" {
+						if b, ok := m["b"].(map[string]interface{}); ok {
+							if got, _ := b["_consumer"].(string); got != want {
+								return fail("BindAndValidate decoded the body with the %q consumer; the request carries the parsed content type %q (stored before the header was overwritten)", got, ctMT)
+							}
+						}
+					}
+				}
+				if ctCached && swapped && err == nil && ctMT != "application/json" && ctMT != "application/x-alt" {
+					// the stored content type is not admitted by the operation: binding must refuse, whatever the header says now
+					return fail("BindAndValidate accepted the request although it carries the parsed content type %q, which the operation does not admit (the header was overwritten afterwards)", ctMT)
 				}
 				cur, boundDone, boundVal, boundErr = nr, true, bound, es
 			}
@@ -277,7 +305,7 @@ func (r *bytesReader) Read(p []byte) (int, error) {
 	return n, nil
 }
 
-var histOps = []string{"RouteInfo", "ContentType", "ResponseFormat", "ResponseFormatOther", "Authorize", "Authorize", "BindAndValidate", "BindAndValidate", "ResetAuth"}
+var histOps = []string{"RouteInfo", "ContentType", "ContentType", "ResponseFormat", "ResponseFormatOther", "Authorize", "Authorize", "BindAndValidate", "BindAndValidate", "ResetAuth", "SwapCT"}
 
 func GenHistory(t *rapid.T) History {
 	h := History{Req: oneDamage(genReq(t))}
@@ -321,6 +349,16 @@ func ClassifyHistory(h History) (bool, []string) {
 	}
 	if seen["BindAndValidate"] > 1 && ops[h.Req.Op].Method != "GET" && h.Req.Body != "none" {
 		labels["BindAndValidate twice with a body"] = true
+	}
+	ctSeen := false
+	for _, op := range h.Ops {
+		if op == "ContentType" {
+			ctSeen = true
+		}
+		if op == "SwapCT" && ctSeen {
+			labels["Content-Type header overwritten after it was parsed"] = true
+			nt = true
+		}
 	}
 	labels["cred "+h.Req.Cred] = true
 	if strings.HasPrefix(h.Req.Cred, "zero-") && seen["Authorize"] > 1 {
